@@ -1,4 +1,4 @@
-//@unit tier=quick
+//@unit tier=quick canary_includes=no
 // Copying counterparts (default methods of trait BaseMatrix in src/linalg/mod.rs) == clone + in-place variant:
 // "each in-place variant produces the same result as its copying counterpart".
 //@include prelude/uses.rs
